@@ -45,6 +45,8 @@ def lax_fixed_point(case):
         w = f(v, b)
     except Exception:
         return None
+    if name in ("length", "max_length", "min_length") and isinstance(v, (int, float, Decimal)) and not isinstance(v, bool) and isinstance(w, str):
+        return "lax_%s(%r, %r) = %r: a number came back as text (parsing it again gives a value of another type)" % (name, v, b, w)
     try:
         w2 = f(w, b)
         if not (w2 == w or w != w):
